@@ -953,6 +953,123 @@ def judge_case(ctx, case, R, M):
     ctx.judge(small, Rv, S, Mv, finding=fid, what="export -> import changes names, initial values, derived values, fluxes or derivatives")
 
 
+# ---------------------------------------------------------------------------------------------- shrinking
+
+
+def _num_children(e):
+    """numeric immediate subexpressions of a numeric wire expression"""
+    t = e[0]
+    if t == "unary" and e[1] in ("USub", "UAdd"):
+        return [e[2]]
+    if t == "binop":
+        return [e[2], e[3]]
+    if t == "ifexp":
+        return [e[2], e[3]]
+    if t == "call":
+        return list(e[2])
+    return []
+
+
+def _candidates(case):
+    """smaller variants of a case (one reduction each)"""
+    import copy
+
+    m = case["model"]
+    if len(case["states"]) > 1:
+        c = copy.deepcopy(case)
+        c["states"] = c["states"][:1]
+        yield c
+    for i in range(len(m["rxns"])):
+        if len(m["rxns"]) > 1:
+            c = copy.deepcopy(case)
+            del c["model"]["rxns"][i]
+            yield c
+    used = {a for f in all_fns(m) for a in f["args"]}
+    for i, (n, _) in enumerate(m["derived"]):
+        if n not in used:
+            c = copy.deepcopy(case)
+            del c["model"]["derived"][i]
+            yield c
+    for key in ("params", "vars"):
+        for i, (n, init) in enumerate(m[key]):
+            if init[0] == "ia":
+                c = copy.deepcopy(case)
+                c["model"][key][i][1] = ["val", "2"]
+                yield c
+            if n not in used and key == "params":
+                c = copy.deepcopy(case)
+                del c["model"][key][i]
+                yield c
+    for ri, r in enumerate(m["rxns"]):
+        for si, (_, coef) in enumerate(r["stoich"]):
+            if len(r["stoich"]) > 1:
+                c = copy.deepcopy(case)
+                del c["model"]["rxns"][ri]["stoich"][si]
+                yield c
+            if coef[0] == "fn":
+                c = copy.deepcopy(case)
+                c["model"]["rxns"][ri]["stoich"][si][1] = ["num", "1"]
+                yield c
+
+    # replace a function body by one of its numeric subexpressions
+    def fn_slots(mm):
+        for key in ("params", "vars"):
+            for i, (_, init) in enumerate(mm[key]):
+                if init[0] == "ia":
+                    yield (key, i, 1, 1)
+        for i in range(len(mm["derived"])):
+            yield ("derived", i, 1)
+        for i, r in enumerate(mm["rxns"]):
+            yield ("rxns", i, "fn")
+            for j, (_, coef) in enumerate(r["stoich"]):
+                if coef[0] == "fn":
+                    yield ("rxns", i, "stoich", j, 1, 1)
+
+    def get(mm, path):
+        x = mm
+        for k in path:
+            x = x[k]
+        return x
+
+    for path in fn_slots(m):
+        f = get(m, path)
+        if len(f["body"]) == 1 and f["body"][0][0] == "ret" and len(f["body"][0]) == 2:
+            for sub in _num_children(f["body"][0][1]):
+                c = copy.deepcopy(case)
+                get(c["model"], path)["body"] = [["ret", sub]]
+                yield c
+
+
+def shrink(ctx, viol, budget: int = 40):
+    """greedy delta debugging of one violation (re-runs R, M, S on every candidate)"""
+    from vlib.framework import Ctx
+
+    case = viol["case"]
+    what = viol.get("what")
+    spent = 0
+    progress = True
+    while progress and spent < budget:
+        progress = False
+        for cand in _candidates(case):
+            if spent >= budget:
+                break
+            spent += 1
+            try:
+                c2 = prepare({k: cand[k] for k in ("kind", "model", "states", "must_raise", "finding", "floaty")})
+                (R, M), = evaluate(ctx, [c2])
+                probe = Ctx(ctx.prop, ctx.tier, ctx.seed)
+                probe.known, probe.fixed = ctx.known, ctx.fixed
+                judge_case(probe, c2, R, M)
+            except Exception:  # noqa: BLE001  a candidate the harness cannot run is not a smaller witness
+                continue
+            hit = [v for v in probe.violations if v.get("what") == what]
+            if hit:
+                case, viol = hit[0]["case"], hit[0]
+                progress = True
+                break
+    return viol
+
+
 # ---------------------------------------------------------------------------------------------- driver
 
 
@@ -996,7 +1113,7 @@ def setup(ctx):
 
 
 def strata(ctx):
-    n = ctx.n(1, 12)
+    n = ctx.n(1, 40)
     plan = [("exact", 140 * n), ("float", 90 * n), ("names", 33 * n), ("refclash", 8 * n), ("boolnum", 9 * n)]
     plan += [(f"unsupported:{k}", 3 * n) for k, _ in UNSUPPORTED]
     return plan
@@ -1016,6 +1133,17 @@ def run(ctx):
             judge_case(ctx, case, R, M)
         if len(ctx.violations) > 20:
             break
+    if ctx.violations:
+        # report a minimised witness: shrink the smallest failing model
+        from vlib.framework import canon
+
+        v = min((v for v in ctx.violations if "case" in v and "model" in v["case"]), key=lambda v: len(canon(v)),
+                default=None)
+        if v is not None:
+            small = shrink(ctx, v)
+            if small is not v:
+                ctx.violations.append(small)
+                ctx.notes.append("failing input minimised by delta debugging")
     shutil.rmtree(SCRATCH, ignore_errors=True)
     if not ctx.proof_ok or ctx.drift:
         ctx.notes.append("proof/correspondence broken: the run above is the failing-input search")
